@@ -52,6 +52,18 @@ fn run(sh: &mut Shard) {
             }
         }
     }
+    for prog in slices::nested_function_programs() {
+        if !sh.mine() {
+            continue;
+        }
+        sh.begin(&|| printer::program(&prog));
+        sh.count("slice:directed-nested");
+        if let Some(r) = differential(sh, "semantics", &prog, opts()) {
+            if !matches!(r.model.end, End::Unspec(_) | End::Diverge) {
+                sh.nontrivial(&printer::program(&prog));
+            }
+        }
+    }
     for sl in slices::slices() {
         let name = sl.name;
         slices::for_each_program(&sl, tier, sh, &mut |sh, prog| {
